@@ -350,6 +350,16 @@ result_type parse_url_impl(std::string_view user_input,
   if (user_input.size() > max_input_length) [[unlikely]] {
     url.is_valid = false;
   }
+  // Normalization (percent-encoding, IDNA, etc.) can expand the URL beyond the
+  // original input size: every successful exit, including the early ones, must
+  // check the resulting size against the maximum input length.
+  auto enforce_max_length = [max_input_length](result_type& u) {
+    if constexpr (store_values) {
+      if (u.is_valid && u.get_href_size() > max_input_length) {
+        u.is_valid = false;
+      }
+    }
+  };
   // Going forward, user_input.size() is in [0,
   // std::numeric_limits<uint32_t>::max). If we are provided with an invalid
   // base, or the optional_url was invalid, we must return.
@@ -560,6 +570,7 @@ result_type parse_url_impl(std::string_view user_input,
             }
           }
           url.update_unencoded_base_hash(*fragment);
+          enforce_max_length(url);
           return url;
         }
         // Otherwise, if base's scheme is not "file", set state to relative
@@ -695,6 +706,7 @@ result_type parse_url_impl(std::string_view user_input,
                 url.update_unencoded_base_hash(*fragment);
               }
             }
+            enforce_max_length(url);
             return url;
           }
           input_position = end_of_authority + 1;
@@ -911,6 +923,7 @@ result_type parse_url_impl(std::string_view user_input,
             url.update_unencoded_base_hash(*fragment);
           }
         }
+        enforce_max_length(url);
         return url;
       }
       case state::HOST: {
@@ -1041,6 +1054,7 @@ result_type parse_url_impl(std::string_view user_input,
                 url.update_unencoded_base_hash(*fragment);
               }
             }
+            enforce_max_length(url);
             return url;
           }
           // If c is neither U+002F (/) nor U+005C (\), then decrease pointer
